@@ -340,6 +340,18 @@ impl World {
     }
 
     /// Complete allocator state in canonical text (model level).
+    /// what every name resolves to (the in-memory name table), as `name>slot/id-of-that-slot`
+    pub fn names(&self) -> String {
+        let db = self.db();
+        let regions = db.regions();
+        let mut v: Vec<String> = regions.id_to_index().iter().map(|(name, idx)| {
+            let id = regions.index_to_region().get(*idx).and_then(|r| r.as_ref().map(|r| r.meta().id().to_string())).unwrap_or_else(|| "-".into());
+            format!("{}>{}/{}", name.trim_start_matches('r'), idx, id.trim_start_matches('r'))
+        }).collect();
+        v.sort();
+        v.join(",")
+    }
+
     pub fn dump(&self) -> String {
         let db = self.db();
         let layout = db.layout();
@@ -457,6 +469,17 @@ impl World {
         }
         if layout.start_to_region().len() != regions.index_to_region().iter().flatten().count() {
             return Some("layout-lists-a-region-that-is-not-live".into());
+        }
+        // index consistency: the name table and the slot table describe the same regions
+        for (name, idx) in regions.id_to_index() {
+            match regions.index_to_region().get(*idx).and_then(|r| r.as_ref()) {
+                Some(r) if r.meta().id() == name.as_str() => {}
+                Some(r) => return Some(format!("name-table-entry-points-at-another-region name={name} slot={idx} holds={}", r.meta().id())),
+                None => return Some(format!("name-table-entry-points-at-an-empty-slot name={name} slot={idx}")),
+            }
+        }
+        if regions.id_to_index().len() != regions.index_to_region().iter().flatten().count() {
+            return Some("live-region-missing-from-the-name-table".into());
         }
         for (s, z) in layout.start_to_hole() {
             ext.push((*s as u64, *z as u64, "hole".into()));
@@ -612,6 +635,7 @@ fn run_case(cid: &str, min_len: u64, ops: Option<Vec<Op>>, g: Option<&mut Gen>, 
             _ => unreachable!(),
         };
         let before = w.dump();
+        let before_names = w.names();
         let before_hole = w.largest_hole();
         let before_len = w.db().layout().len() as u64;
         let pre_regions: BTreeMap<u64, (u64, u64)> = w.db().regions().index_to_region().iter().flatten().map(|r| { let m = r.meta(); (r.index() as u64, (m.start() as u64, m.reserved() as u64)) }).collect();
@@ -633,6 +657,11 @@ fn run_case(cid: &str, min_len: u64, ops: Option<Vec<Op>>, g: Option<&mut Gen>, 
         }
         if got.starts_with("err") && before != after {
             viol.push(format!("C13:error-had-effect-after-{opk}-{} step={step} op={}", got.trim_start_matches("err:"), op.show()));
+        }
+        if got.starts_with("err") && before_names != w.names() {
+            // the in-memory name table is what every later by-name request resolves through
+            viol.push(format!("C13:error-changed-name-table-after-{opk}-{} step={step} op={} before=[{before_names}] after=[{}]",
+                              got.trim_start_matches("err:"), op.show(), w.names()));
         }
         if let Some(v) = w.check_contents() {
             viol.push(format!("C01:contents-differ-from-reference-after-{opk} step={step} op={} {v}", op.show()));
